@@ -864,6 +864,35 @@ fn quiescent(world: &mut World)
 fn top_acts(world: &mut World, t: usize, script: Vec<SAct>)
 {
     let owner = format!("top{t}");
+    // a batch of one resource action, every other time: the `World`-level resource API (`ReactResWorldExt`), no `Commands`
+    if t % 2 == 0 && script.len() == 1
+    {
+        let (plus, minus) = (format!("m+ {owner} 0 0"), format!("m- {owner} 0 0"));
+        match script[0]
+        {
+            SAct::ResMut(ty) =>
+            {
+                log(plus);
+                if ty == 0 { world.trigger_resource_mutation::<Rs<0>>(); } else { world.trigger_resource_mutation::<Rs<1>>(); }
+                log(minus);
+                return
+            }
+            SAct::ResNr(ty, v) =>
+            {
+                if ty == 0 { world.react_resource_mut_noreact::<Rs<0>>().0 = v; } else { world.react_resource_mut_noreact::<Rs<1>>().0 = v; }
+                log(plus); log(minus);
+                return
+            }
+            SAct::ResRead(ty) =>
+            {
+                let v = if ty == 0 { world.react_resource::<Rs<0>>().0 } else { world.react_resource::<Rs<1>>().0 };
+                log(format!("ret {v}"));
+                log(plus); log(minus);
+                return
+            }
+            _ => {}
+        }
+    }
     // every other batch that needs no reactive accessor goes through `World::react` (commands, callback, flush) instead of
     // a one-off system with `Commands`
     let needs_access = script.iter().any(|a| matches!(a, SAct::ResSet(..) | SAct::ResRead(..) | SAct::Mutate(..) | SAct::MutNr(..)
